@@ -475,7 +475,15 @@ def gen_lzma1(rng, big=False, stats=None):
         expect = ("error", b"")
     elif variant in ("invalid-dist", "huge-dist"):
         extflags, extsize = 1, (1 << 64) - 1
-        random_symbols(rng, w, n, stats)
+        if rng.random() < 0.5:
+            # fill the dictionary completely so that the boundary distance is the (rounded) dictionary size itself
+            ds = rng.choice((0, 4096, 4097, 5000))
+            preset = b""
+            w = LzmaWriter(lc, lp, pb, ds, preset)
+            n = round_dict(ds) + rng.choice((0, 1, 15, 16, rng.randrange(0, 700)))
+            random_symbols(rng, w, n, stats, long_bias=True)
+        else:
+            random_symbols(rng, w, n, stats)
         full = w.full()
         before = bytes(w.plain)
         if variant == "invalid-dist":
@@ -540,7 +548,7 @@ def gen_lzma2(rng, big=False, stats=None):
     w = LzmaWriter(lc, lp, pb, ds, preset)
     out = bytearray()
     variant = rng.choice(("valid",) * 8 + ("no-initial-dict-reset", "props-missing", "bad-control", "bad-props",
-                                           "eopm-in-chunk", "csize-small", "csize-big", "usize-small", "usize-big",
+                                           "eopm-in-chunk", "invalid-dist", "csize-small", "csize-big", "usize-small", "usize-big",
                                            "no-end-marker", "trailing"))
     stats["lzma2:" + variant] = stats.get("lzma2:" + variant, 0) + 1
     nchunks = rng.choice((0, 1, 1, 2, 3, 5, 8))
@@ -629,6 +637,16 @@ def gen_lzma2(rng, big=False, stats=None):
             if w.rc.pending_size() > 60000:
                 break
         usize = produced
+        if is_err and variant == "invalid-dist":
+            cut = bytes(w.plain)
+            full = w.full()
+            w.match(full + rng.choice((0, 0, 1, 16)), pick_len(rng, 273), do_copy=False)
+            w.rc.flush()
+            body = bytes(w.rc.out)
+            out += lzma2_chunk_header(0x80 | (level << 5), usize + 2, len(body), props_byte(lc, lp, pb) if level >= 2 else None)
+            out += body
+            broken_at = cut
+            break
         if is_err and variant == "eopm-in-chunk":
             cut = bytes(w.plain)
             w.eopm()
